@@ -3,7 +3,9 @@ from checks import both, EX
 CHECK = {
     'level': 'exploration',
     'rule': ('Keys are boxed integers with 2-3 distinct key OBJECTS and value objects per key value (separate heap blocks), '
-             'so "the stored key/value pointers stay untouched" is observed by address. '
+             'so "the stored key/value pointers stay untouched" is observed by address; a share of the entries (odd key values '
+             'with their last key object in the closure alphabets, one offer in 3-4 in random histories) is inserted with a '
+             'NULL value pointer, which the model stores and every report (insert-existing, find, erase, clear callback) must show. '
              '(a) closure generator: every op of the alphabet {insert with/without iterator, find, erase by key with/without '
              'iterator, erase_iterator with an iterator taken from a find or from an insert (new or existing key), size, '
              'clear with callback, clear with NULL callback} x every key value x every key object is applied in every reachable '
